@@ -58,13 +58,17 @@ func (g *ogen) intExpr(d int) *onode {
 		}
 		return xs
 	}
-	switch g.r.Intn(33) {
+	switch g.r.Intn(34) {
 	case 30, 31:
 		// f(a, b, [c, d]...): leading arguments, then the spread operand, for a fixed-arity script function (k = parameters,
 		// the first kids up to the marker are the leading arguments)
 		np := 2 + g.r.Intn(5)
 		nl := 1 + g.r.Intn(2)
 		return &onode{kind: "leadspread", fn: fmt.Sprintf("f%d", np), k: int64(np), lead: nl, kids: ints(nl + g.r.Intn(np+1))}
+	case 33:
+		// an index expression whose container is not indexable (an integer, nil from a missing map entry): container, then
+		// the index operand, THEN the error
+		return &onode{kind: "badindex", k: int64(g.r.Intn(2)), kids: ints(2)}
 	case 32:
 		// x in [e1, e2, ...] with the list written as a literal and a match on the FIRST element: every element is still evaluated
 		v := int64(g.r.Intn(5))
@@ -202,6 +206,11 @@ func (n *onode) src() string {
 		return n.fn + "(" + joinKids(n.kids[:n.lead]) + ", [" + joinKids(n.kids[n.lead:]) + "]...)"
 	case "inlist":
 		return "gv0(" + n.kids[0].src() + " in [" + joinKids(n.kids[1:]) + "])"
+	case "badindex":
+		if n.k == 0 {
+			return "(" + n.kids[0].src() + ")[" + n.kids[1].src() + "]"
+		}
+		return "{\"k\": " + n.kids[0].src() + "}[\"missing\"][" + n.kids[1].src() + "]"
 	case "binop":
 		r := n.kids[1].src()
 		if n.fn == "in" {
@@ -368,6 +377,9 @@ func (n *onode) ref(tr *[]string) (interface{}, bool) {
 			return nil, true
 		}
 		return vs[0], false
+	case "badindex":
+		evalAll(n.kids)
+		return nil, true
 	case "binop", "addrarg", "indexops", "inlist":
 		if _, bad := evalAll(n.kids); bad {
 			return nil, true
@@ -470,7 +482,7 @@ func streamOrder(o *Out, r *rand.Rand, n int, thorough bool) {
 			d := 1 + r.Intn(3)
 			var stmt string
 			bad := false
-			switch r.Intn(10) {
+			switch r.Intn(11) {
 			case 8, 9: // typed map / slice literals: key_i then value_i, elements in order
 				ks := []*onode{g.intExpr(d), g.intExpr(d), g.intExpr(d), g.intExpr(d)}
 				if r.Intn(2) == 0 {
@@ -540,6 +552,24 @@ func streamOrder(o *Out, r *rand.Rand, n int, thorough bool) {
 						break
 					}
 				}
+			case 10: // defer of a Go function with typed parameters: a value that does not convert fails AT THE DEFER STATEMENT,
+				// the operands after it and the rest of the body do not run
+				e1, e2 := g.intExpr(d), g.intExpr(d)
+				switch r.Intn(3) {
+				case 0:
+					stmt = "func() { defer vtyped(" + e1.src() + ", \"notanint\", " + e2.src() + "); probe(-5) }()"
+					_, _ = e1.ref(&want)
+				case 1:
+					stmt = "func() { defer typed2(" + e1.src() + ", \"notanint\"); probe(-5) }()"
+					_, _ = e1.ref(&want)
+				default:
+					// the list literal is evaluated (it is an operand), then it does not convert to int64
+					stmt = "func() { defer typed2(" + e1.src() + ", [" + e2.src() + "]); probe(-5) }()"
+					if _, b1 := e1.ref(&want); !b1 {
+						_, _ = e2.ref(&want)
+					}
+				}
+				bad = true
 			case 4: // defer: arguments now, the call (a probe2 recording them) when the try block... at program end
 				ks := []*onode{g.intExpr(d), g.intExpr(d)}
 				stmt = "func() { defer probe2(" + joinKids(ks) + "); probe(-5) }()"
